@@ -21,6 +21,8 @@ pub enum Effect {
     Delete { rel: String, tuples: Vec<T> },
     /// delete every tuple of `rel` whose column `col` satisfies `cmp k`
     CondDelete { rel: String, col: usize, cmp: String, k: i64 },
+    /// `-rel(X, X) <- rel(X, X)`: delete every tuple whose two columns are equal
+    CondDeleteDiag { rel: String },
     /// for every tuple matching the condition: delete it and insert the same tuple with column 1 + add
     Update { rel: String, col: usize, cmp: String, k: i64, add: i64 },
     Rule { name: String, text: String },
@@ -57,6 +59,8 @@ pub enum HOp {
     Advance { secs: u64 },
     Restart,
     EnableIncremental { kg: String },
+    /// multi-tuple delete straight through StorageEngine::delete_tuples_from (present and absent tuples mixed)
+    EngineDelete { kg: String, rel: String, tuples: Vec<T> },
     /// engine-level maintenance (shared with DUR)
     SaveAll,
     CompactAll,
@@ -400,6 +404,17 @@ impl<'a> X<'a> {
                     return Err(fail("report_mismatch", step, format!("conditional delete on {rel}: model says {n}; messages {msgs:?}")));
                 }
             }
+            Effect::CondDeleteDiag { rel } => {
+                let mut n = 0;
+                if let Some(r) = k.rels.get_mut(rel) {
+                    let before = r.len();
+                    r.retain(|t| !(t.len() == 2 && t[0] == t[1]));
+                    n = before - r.len();
+                }
+                if check && !has(&format!("Conditional delete: {n} fact(s) deleted from '{rel}'")) {
+                    return Err(fail("report_mismatch", step, format!("conditional delete (repeated variable) on {rel}: model says {n}; messages {msgs:?}")));
+                }
+            }
             Effect::Update { rel, col, cmp, k: kk, add } => {
                 let mut d = 0;
                 if let Some(r) = k.rels.get_mut(rel) {
@@ -689,6 +704,28 @@ impl<'a> X<'a> {
                     Ok(None) => {}
                     Err(e) => return Err(fail("incremental_read_failed", i, format!("{kg}:{rel}: {e}"))),
                 }
+            }
+            HOp::EngineDelete { kg, rel, tuples } => {
+                let r = {
+                    let g = self.h().get_storage();
+                    g.delete_tuples_from(kg, rel, tuples.iter().map(to_tuple).collect())
+                };
+                let mut n = 0;
+                if let Some(k) = self.model.kgs.get_mut(kg) {
+                    if let Some(set) = k.rels.get_mut(rel) {
+                        for t in tuples {
+                            if set.remove(t) {
+                                n += 1;
+                            }
+                        }
+                    }
+                }
+                self.logln(&format!("step {i} engine_delete -> {r:?}"));
+                match r {
+                    Ok(c) if c == n => {}
+                    other => return Err(fail("report_mismatch", i, format!("delete_tuples_from({rel}, {tuples:?}) returned {other:?}, model removed {n}"))),
+                }
+                self.check_persistent(i)?;
             }
             HOp::SaveAll => {
                 let g = self.h().get_storage();
